@@ -323,6 +323,21 @@ func (fa *funcAn) edge(st lstate, from *ssa.BasicBlock, succ int) (lstate, bool)
 				}
 			}
 		}
+		// pending `ok bool` result of a call
+		if st.pend >= 0 {
+			base, neg := an.CondBase(ifi.Cond)
+			if ex, isEx := base.(*ssa.Extract); isEx {
+				if call, isCall := ex.Tuple.(*ssa.Call); isCall && fa.callID[call] == st.pend {
+					if bt, isB := ex.Type().Underlying().(*types.Basic); isB && bt.Kind() == types.Bool {
+						isTrue := (succ == 0) != neg
+						if (st.pendNil == 1) != isTrue {
+							return st, false
+						}
+						st.pend, st.pendNil = -1, 0
+					}
+				}
+			}
+		}
 		// select index test: token received on this case
 		if x, y, op, ok := an.CmpTest(ifi); ok && op == token.EQL && succ == 0 {
 			if ex, ok := x.(*ssa.Extract); ok && ex.Index == 0 {
@@ -509,6 +524,16 @@ func (fa *funcAn) instr(st lstate, in ssa.Instruction) []lstate {
 		ex := exitEff{held: st.held, rel: st.rel}
 		if n := len(x.Results); n > 0 && an.IsErrorType(x.Results[n-1].Type()) {
 			ex.errNil = fa.errNilness(x.Results[n-1], x)
+		} else if n > 0 {
+			// an `ok bool` last result plays the role of the error: true ~ nil
+			if bt, isB := x.Results[n-1].Type().Underlying().(*types.Basic); isB && bt.Kind() == types.Bool {
+				switch fa.boolResult(x.Results[n-1], x) {
+				case 2:
+					ex.errNil = 1
+				case 1:
+					ex.errNil = 2
+				}
+			}
 		}
 		fa.exits[ex] = true
 		return nil
@@ -549,7 +574,7 @@ func (fa *funcAn) errNilness(v ssa.Value, ret *ssa.Return) int8 {
 	}
 	// returned on the non-nil edge of a test of the same value
 	for _, g := range an.GuardingEdges(ret.Block()) {
-		if x, nilSucc, ok := an.NilTest(an.BlockIf(g.From)); ok && x == v && g.Succ != nilSucc {
+		if x, nilSucc, ok := an.NilTest(g.If()); ok && x == v && g.Succ != nilSucc {
 			return 2
 		}
 	}
@@ -1410,4 +1435,30 @@ func (e *Engine) paramEscape(fn *ssa.Function, i int, depth int) escSum {
 	}
 	visit(fn.Params[i])
 	return *res
+}
+
+// boolResult evaluates a returned boolean: 2 true, 1 false, 0 unknown (looks through defer-spilled cells).
+func (fa *funcAn) boolResult(v ssa.Value, ret *ssa.Return) int8 {
+	if u, ok := v.(*ssa.UnOp); ok && u.Op == token.MUL {
+		if a, ok := u.X.(*ssa.Alloc); ok {
+			var last ssa.Value
+			for _, in := range ret.Block().Instrs {
+				if s, ok := in.(*ssa.Store); ok && s.Addr == a {
+					last = s.Val
+				}
+			}
+			if last != nil {
+				v = last
+			}
+		}
+	}
+	if c, ok := v.(*ssa.Const); ok && c.Value != nil {
+		if c.Value.String() == "true" {
+			return 2
+		}
+		if c.Value.String() == "false" {
+			return 1
+		}
+	}
+	return 0
 }
